@@ -74,17 +74,27 @@ def get_cls(path):
 _FMAX = {16: 65504.0, 32: 3.4028234663852886e38, 64: 1.7976931348623157e308}
 
 
-def build(node, toks, pos):
-    """tokens -> Python object for the generated API; returns (object, new position)."""
+def _storage_bits(n):
+    return 8 if n <= 8 else 16 if n <= 16 else 32 if n <= 32 else 64
+
+
+def build(node, toks, pos, in_array=False):
+    """
+    tokens -> Python object for the generated API; returns (object, new position).
+    Scalars must be inside the DSDL range (the setters refuse anything else); array elements live in a NumPy array whose
+    dtype is the next standard width, so anything that dtype holds is a legitimate in-memory value (it must be
+    saturated / truncated by the serializer).
+    """
     k = node["k"]
     if k == "u":
         v = int(toks[pos])
-        if not 0 <= v < (1 << node["n"]):
+        if not 0 <= v < (1 << (_storage_bits(node["n"]) if in_array else node["n"])):
             raise NotApplicable()
         return v, pos + 1
     if k == "i":
         v = int(toks[pos])
-        if not -(1 << (node["n"] - 1)) <= v < (1 << (node["n"] - 1)):
+        w = _storage_bits(node["n"]) if in_array else node["n"]
+        if not -(1 << (w - 1)) <= v < (1 << (w - 1)):
             raise NotApplicable()
         return v, pos + 1
     if k == "b":
@@ -101,7 +111,7 @@ def build(node, toks, pos):
         pos += 1
         out = []
         while toks[pos] != "]":
-            x, pos = build(node["el"], toks, pos)
+            x, pos = build(node["el"], toks, pos, in_array=True)
             out.append(x)
         pos += 1
         if k == "l" and len(out) > node["cap"]:
@@ -129,13 +139,13 @@ def build(node, toks, pos):
     raise ValueError(k)
 
 
-def build_unchecked(node, toks, pos):
+def build_unchecked(node, toks, pos, in_array=False):
     k = node["k"]
     if k in "al":
         pos += 1
         out = []
         while toks[pos] != "]":
-            x, pos = build_unchecked(node["el"], toks, pos)
+            x, pos = build_unchecked(node["el"], toks, pos, in_array=True)
             out.append(x)
         return out, pos + 1
     if k == "s":
@@ -153,7 +163,7 @@ def build_unchecked(node, toks, pos):
         name, fn = node["fields"][kk]
         x, pos = build_unchecked(fn, toks, pos + 2)
         return get_cls(node["cls"])(**{name: x}), pos + 1
-    return build(node, toks, pos)
+    return build(node, toks, pos, in_array)
 
 
 def has_bad_length(node, toks):
